@@ -294,8 +294,28 @@ func c14Form(c *core.Ctx, e c14Emitter, v map[string]string, baseline string, ba
 		c.Violation("C14/form/"+clause+"/"+e.name+"/"+posKey, m+" ("+truncate(desc, 300)+")", replay)
 	}
 	if sh := pg.Shape(); sh != baseline {
-		bad("structure-changed", fmt.Sprintf("page structure %q differs from the benign baseline %q", truncate(sh, 300), truncate(baseline, 300)))
-		return
+		// a page may legitimately leave out a field whose value is empty: compare with the benign page that has the same
+		// positions empty before calling it a change
+		alt := baseline
+		benign := map[string]string{}
+		anyEmpty := false
+		for k, s := range v {
+			if s == "" {
+				benign[k] = ""
+				anyEmpty = true
+			}
+		}
+		if anyEmpty {
+			if bp, berr := e.emit(benign); berr == nil {
+				if bpg, bperr := htmlmon.Parse(bp); bperr == nil {
+					alt = bpg.Shape()
+				}
+			}
+		}
+		if sh != alt {
+			bad("structure-changed", fmt.Sprintf("page structure %q differs from the benign baseline %q", truncate(sh, 300), truncate(alt, 300)))
+			return
+		}
 	}
 	if len(pg.Scripts) != len(baseScripts) {
 		bad("scripts", "number of script elements changed")
